@@ -340,12 +340,81 @@ pub mod verif_hooks {
     use iroh_relay::protos::relay::Datagrams;
     use n0_future::task::{self, AbortOnDropHandle};
     use tokio::sync::mpsc;
+    use tokio_util::sync::PollSender;
 
     use super::{
         HomeRelayWatch, RecvInfo, RelayActorMessage, RelayRecvDatagram, RelaySendItem,
-        RelayTransport,
+        RelaySender, RelayTransport,
     };
     use crate::socket::transports::Addr;
+
+    /// The actor's end of a [`RelaySender`] made by [`relay_sender`].
+    #[derive(Debug)]
+    pub struct RelaySendQueue {
+        tx: mpsc::Sender<RelaySendItem>,
+        rx: Option<mpsc::Receiver<RelaySendItem>>,
+    }
+
+    impl RelaySendQueue {
+        /// Fills the remaining capacity with items for `(url, dst)`; returns how many.
+        pub fn fill(&self, url: RelayUrl, dst: EndpointId) -> usize {
+            let mut n = 0;
+            while self
+                .tx
+                .try_send(RelaySendItem {
+                    remote_endpoint: dst,
+                    url: url.clone(),
+                    datagrams: Datagrams::from([0u8; 0]),
+                })
+                .is_ok()
+            {
+                n += 1;
+            }
+            n
+        }
+
+        /// Drops the receiving end: the sender sees a closed channel.
+        pub fn close(&mut self) {
+            self.rx = None;
+        }
+
+        /// Number of queued items.
+        pub fn len(&self) -> usize {
+            self.rx.as_ref().map_or(0, |rx| rx.len())
+        }
+
+        /// Whether nothing is queued.
+        pub fn is_empty(&self) -> bool {
+            self.len() == 0
+        }
+
+        /// Takes all queued items: (relay url, destination endpoint, contents).
+        pub fn drain(&mut self) -> Vec<(RelayUrl, EndpointId, Vec<u8>)> {
+            let mut out = Vec::new();
+            if let Some(rx) = self.rx.as_mut() {
+                while let Ok(item) = rx.try_recv() {
+                    out.push((
+                        item.url,
+                        item.remote_endpoint,
+                        item.datagrams.contents.to_vec(),
+                    ));
+                }
+            }
+            out
+        }
+    }
+
+    /// A [`RelaySender`] whose channel (of `capacity`) ends in the returned queue instead of
+    /// a relay actor.
+    pub(crate) fn relay_sender(capacity: usize) -> (RelaySender, RelaySendQueue) {
+        let (tx, rx) = mpsc::channel(capacity);
+        (
+            RelaySender {
+                sender: PollSender::new(tx.clone()),
+            },
+            RelaySendQueue { tx, rx: Some(rx) },
+        )
+    }
 
     /// One filled receive slot as handed to QUIC by `RelayTransport::poll_recv`.
     #[derive(Debug, Clone, PartialEq, Eq)]
